@@ -385,8 +385,9 @@ def run(ctx):
                    func="msmart.lan._Packet._timestamp", file=file, construct=show(sgm.term)[-60:],
                    fail=f"timestamp byte `{show(sgm.term)[-60:]}` can leave [0,255] for some wall-clock time (struct.error)")
     # what goes out on a V2 connection is that encoding of the frame, once: observed "at the bytes written to the transport by LAN.send"
-    from ._pipeline import read_returns_decoded, send_writes_wrapped
+    from ._pipeline import read_returns_decoded, send_writes_wrapped, write_reaches_wire
     send_writes_wrapped(ctx, "C02.f")
+    write_reaches_wire(ctx, "C02.f", parts=("v2",))
     read_returns_decoded(ctx, "C02.f")
     ctx.require_min("encoders", 1)
     ctx.require_min("decoders", 1)
